@@ -55,6 +55,7 @@ def run(ctx):
     hists = [fc.observers(rng, fc.PATHS, [fc.norm_op(op, rng) for op in h], 0.1) for h in hists]
     # G4: seeded random input scripts with hard links, overwrites keeping some chunks, renames
     hists += fc.random_scripts(rng, 600 if ctx.thorough else 80, 12, WEIGHTS)
+    hists = fc.finding_scripts("C20") + hists
     fc.drive_and_judge(ctx, hists, nontrivial, mutate, ["C20"])
     ctx.rule = ("executions = one TLC witness history per (namespace state incl. link records and scheduled chunks, last "
                 "operation) to depth %d over 5 paths x 2 chunk ids x 2 link ids (sampled in the quick tier; thorough adds "
